@@ -159,8 +159,19 @@ def build(spec, upto=None, image=True):
     else:
         o.add_surface(index=0, thickness=spec['obj'])
     surfs = spec['surfs'] if upto is None else spec['surfs'][:upto]
+    shared = {}
+
+    def mat_of(m):
+        # share_materials: surfaces naming the same medium receive ONE material object (as a user does who creates the glass
+        # once and passes it to several add_surface calls)
+        if not spec.get('share_materials') or isinstance(m, str):
+            return make_material(m)
+        key = repr(m)
+        if key not in shared:
+            shared[key] = make_material(m)
+        return shared[key]
     for i, s in enumerate(surfs, start=1):
-        o.add_surface(index=i, is_stop=bool(s.get('stop')), material=make_material(s['mat']),
+        o.add_surface(index=i, is_stop=bool(s.get('stop')), material=mat_of(s['mat']),
                       thickness=s['t'], **surface_kwargs(s))
     if image:
         img = spec.get('img') or S()
